@@ -589,7 +589,7 @@ def _sym_root(t):
     return t.id if isinstance(t, ast.Name) else None
 
 
-def sym_eval(stmts, env=None, stop=None, opaque=()):
+def sym_eval(stmts, env=None, stop=None, opaque=(), element_stores_kill=True):
     """Symbolic value of the plain locals of a statement list, independent of how the computation is spread over statements:
     names are followed through assignments, augmented assignments become binary operations, tuple assignments are split, an `if`
     gives `a if test else b` for every name its arms leave different (an arm that returns/raises contributes nothing).  Returns
@@ -598,12 +598,15 @@ def sym_eval(stmts, env=None, stop=None, opaque=()):
     (unknown from there on).  Nothing is executed."""
     env = dict(env or {})
     env["\0opaque"] = frozenset(opaque)  # names kept as symbols (never replaced by their definitions)
+    if not element_stores_kill:
+        env["\0keep"] = True  # x[i] = v leaves what is known about x (used for questions about dtype / provenance, not about values)
     try:
         out = _sym_block(stmts, env, stop)
     except _SymFound as f:
         out = f.env
     out = out if out is not None else env
     out.pop("\0opaque", None)
+    out.pop("\0keep", None)
     return out
 
 
@@ -613,7 +616,7 @@ def _sym_kill(node, env):
             env[n.id] = None
         elif isinstance(n, (ast.Attribute, ast.Subscript)) and isinstance(n.ctx, (ast.Store, ast.Del)):
             r = _sym_root(n)
-            if r is not None and r != "self":
+            if r is not None and r != "self" and not env.get("\0keep"):
                 env[r] = None
 
 
@@ -661,7 +664,7 @@ def _sym_block(stmts, env, stop):
                 env.clear()
                 env.update(ea)
                 continue
-            for k in (set(ea) | set(eb)) - {"\0opaque"}:
+            for k in (set(ea) | set(eb)) - {"\0opaque", "\0keep"}:
                 a, b = ea.get(k, ast.Name(k, ast.Load())), eb.get(k, ast.Name(k, ast.Load()))
                 if a is None or b is None:
                     env[k] = None
@@ -734,7 +737,10 @@ def expr_cases(e, conds=()):
                                     setattr(par, f, rep)
                                 elif isinstance(v, list) and any(x is tgt for x in v):
                                     setattr(par, f, [rep if x is tgt else x for x in v])
-                    split(e2, list(conds) + _cond_atoms(n.test, pos))
+                    atoms = _cond_atoms(n.test, pos)
+                    if any(negation_text(a_) in conds for a_ in atoms):
+                        continue  # contradicts a condition already assumed
+                    split(e2, list(conds) + [a_ for a_ in atoms if a_ not in conds])
                 return
         out.append((frozenset(conds), sym_text(e)))
 
@@ -742,7 +748,7 @@ def expr_cases(e, conds=()):
     return out
 
 
-def return_cases(fn):
+def return_cases(fn, opaque=()):
     """The function as a decision table: [(frozenset of condition literals, text of the returned value)] over all paths, with locals
     resolved symbolically and conditional expressions inside a returned value (also in callee position) split into cases.  The table
     does not depend on whether the choice is spelled as nested ifs, early returns, a conditional expression or a local holding the
@@ -764,8 +770,11 @@ def return_cases(fn):
                     pass
                 elif isinstance(s, ast.If):
                     test = _sym_subst(s.test, env)
-                    nxt += block(s.body, dict(env), conds + _cond_atoms(test, True))
-                    nxt += block(s.orelse, dict(env), conds + _cond_atoms(test, False))
+                    for arm, pos in ((s.body, True), (s.orelse, False)):
+                        atoms = _cond_atoms(test, pos)
+                        if any(negation_text(a_) in conds for a_ in atoms):
+                            continue  # contradicts what this path has already decided (e.g. a second, complementary test instead of `else`)
+                        nxt += block(arm, dict(env), conds + [a_ for a_ in atoms if a_ not in conds])
                 elif isinstance(s, (ast.For, ast.While, ast.Try, ast.With)):
                     if any(isinstance(n, ast.Return) for n in ast.walk(s)):
                         raise UnrollError("return inside %s" % type(s).__name__)
@@ -780,7 +789,7 @@ def return_cases(fn):
             live = nxt
         return live
 
-    for env, conds in block(fn.body, {}, []):
+    for env, conds in block(fn.body, {"\0opaque": frozenset(opaque)} if opaque else {}, []):
         out.append((frozenset(conds), "None"))
     return sorted(out, key=lambda x: (sorted(x[0]), x[1]))
 
@@ -880,3 +889,124 @@ def monomials(e):
         return [(1, [ast.unparse(x)], [])]
 
     return sorted((s, tuple(sorted(n)), tuple(sorted(d))) for s, n, d in rec(e))
+
+
+def validated_uses(fn, var, is_check, is_use):
+    """Typestate walk for "validate before use" of one local: `if <check on var>: raise` turns the state of `var` to validated on the path
+    that goes on, any assignment to `var` turns it back, the arms of an `if` are joined (validated only if validated in every arm that
+    continues; when only the arm under guard G validates and the other arm leaves `var` alone, the state is "validated if G", which a
+    later `if G:` - with nothing G reads assigned in between - turns into validated), loop bodies start unvalidated unless validated
+    before the loop and not reassigned inside.  Returns [(use node, validated?)] for every node accepted by `is_use`, wherever the check
+    and the use sit relative to each other (same block, sibling blocks under the same guard, nested).
+    is_check(test node) -> True when the test being TRUE means "var is invalid"."""
+    uses = []
+
+    def stored(st):
+        return {n.id for n in ast.walk(st) if isinstance(n, ast.Name) and isinstance(n.ctx, (ast.Store, ast.Del))}
+
+    def scan_uses(node, state):
+        for n in ast.walk(node):
+            if is_use(n):
+                uses.append((n, state is True))
+
+    def conj(t):
+        return [ast.unparse(v) for v in t.values] if isinstance(t, ast.BoolOp) and isinstance(t.op, ast.And) else [ast.unparse(t)]
+
+    def kill(state, names):
+        if var in names:
+            return False
+        if isinstance(state, tuple) and names & state[2]:
+            return False
+        return state
+
+    def block(stmts, state):
+        for st in stmts:
+            if isinstance(st, (ast.Return, ast.Raise, ast.Continue, ast.Break)):
+                scan_uses(st, state)
+                return None
+            if isinstance(st, ast.If):
+                scan_uses(st.test, state)
+                if is_check(st.test) and st.body and isinstance(st.body[-1], ast.Raise) and not st.orelse:
+                    block(st.body, state)
+                    state = True
+                    continue
+                s_body = True if (isinstance(state, tuple) and state[1] in conj(st.test)) else state
+                a = block(st.body, s_body)
+                b = block(st.orelse, state)
+                if a is None and b is None:
+                    return None
+                if a is None or b is None:
+                    state = b if a is None else a
+                elif a is True and b is True:
+                    state = True
+                elif a is True and b is not True and var not in {x for y in st.orelse for x in stored(y)} and not isinstance(st.test, ast.BoolOp):
+                    g = ast.unparse(st.test)
+                    reads = {n.id for n in ast.walk(st.test) if isinstance(n, ast.Name)}
+                    # the guard must still mean the same after the arm: nothing it reads is assigned in the else arm; in the body only `var` may be
+                    body_st = {x for y in st.body for x in stored(y)}
+                    state = ("if", g, reads - {var}) if not ((body_st - {var}) & reads) else False
+                else:
+                    state = a if a == b else False
+                continue
+            if isinstance(st, (ast.For, ast.While)):
+                inner = kill(state, {x for y in st.body + st.orelse for x in stored(y)} | stored(getattr(st, "target", ast.Pass())))
+                block(st.body, inner)
+                block(st.orelse, inner)
+                state = inner
+                continue
+            if isinstance(st, (ast.With, ast.Try)):
+                for blk in ("body", "orelse", "finalbody"):
+                    r = block(getattr(st, blk, []) or [], state)
+                    state = r if r is not None else state
+                for h in getattr(st, "handlers", []):
+                    block(h.body, False)
+                continue
+            if isinstance(st, (ast.FunctionDef, ast.ClassDef)):
+                continue
+            scan_uses(st, state)
+            state = kill(state, stored(st))
+        return state
+
+    block(fn.body, False)
+    return uses
+
+
+FLOAT_FUNCS = {"np.sqrt", "np.exp", "np.log", "np.sin", "np.cos", "np.arccos", "np.arcsin", "np.power", "np.float64", "float", "np.double", "np.divide", "np.true_divide",
+               "np.mean", "np.var", "np.std", "np.linspace", "np.log10", "np.tan", "np.arctan", "np.arctan2", "np.hypot", "np.sinh", "np.cosh", "np.tanh", "np.expm1", "np.log1p"}
+PASS_FUNCS = {"np.abs", "np.absolute", "np.reshape", "np.atleast_1d", "np.atleast_2d", "np.squeeze", "np.ravel", "np.copy", "np.maximum", "np.minimum", "np.negative", "np.ascontiguousarray",
+              "np.asarray", "np.array", "np.asanyarray"}
+
+
+def floatness(e):
+    """True when the expression certainly denotes floating-point data whatever the argument types (a conversion with dtype=np.double / float,
+    a true division, an operation with a float literal, a transcendental function), False when it may carry the dtype of a caller's
+    argument (integer input stays integer).  Locals must have been substituted beforehand (sym_eval)."""
+    if isinstance(e, ast.Constant):
+        return isinstance(e.value, float)
+    if isinstance(e, ast.Call):
+        fn = ast.unparse(e.func)
+        dt = [k.value for k in e.keywords if k.arg == "dtype"]
+        if dt:
+            return ast.unparse(dt[0]) in ("np.double", "float", "np.float64", "np.float_", "'float64'", "'double'")
+        if fn in FLOAT_FUNCS or fn.startswith("sps."):
+            return True
+        if fn in PASS_FUNCS and e.args:
+            return floatness(e.args[0])
+        if isinstance(e.func, ast.Attribute) and e.func.attr in ("reshape", "copy", "ravel", "flatten", "squeeze", "T") :
+            return floatness(e.func.value)
+        if isinstance(e.func, ast.Attribute) and e.func.attr == "astype" and e.args:
+            return ast.unparse(e.args[0]) in ("np.double", "float", "np.float64")
+        return False
+    if isinstance(e, ast.BinOp):
+        if isinstance(e.op, ast.Div):
+            return True
+        return floatness(e.left) or floatness(e.right)
+    if isinstance(e, ast.UnaryOp):
+        return floatness(e.operand)
+    if isinstance(e, ast.Subscript):
+        return floatness(e.value)
+    if isinstance(e, ast.IfExp):
+        return floatness(e.body) and floatness(e.orelse)
+    if isinstance(e, ast.Attribute) and e.attr == "T":
+        return floatness(e.value)
+    return False
